@@ -19,7 +19,7 @@ META = {
             "are only appended (growth never drops); a published tag (slot or mirror) implies a constructed element with "
             "that tag, no key comparison ever reads raw storage, no slot is constructed twice; chain/probe invariant: "
             "every table, group and byte a stored key's probe examines before its slot is the tag of a constructed "
-            "element of another key; a failing insertion found its whole probe sequence full.  Index/mask/probe formulas, "
+            "element of another key; a failing insertion never took the construction step (argument not consumed) and found its whole probe sequence full.  Index/mask/probe formulas, "
             "the CAS operands, the failed-CAS tests, the stored bytes, the statement order construct -> publish -> size and "
             "the memory orders are regenerated from transient_hash_table.hpp on every run.  Tie: the real classes run "
             "under the deterministic scheduler (every atomic operation of the table code is a scheduling point, extra "
@@ -35,10 +35,9 @@ META = {
             "stays, and by c03_key_position there is no free byte before it); the induction over the later lookup "
             "thread's steps (find_after_insert_stmt) is open - covered by the `visible` monitor and by the '^' marks of "
             "the outcome correspondence.  (2) 'exactly one winner in a finished run' (exactly_one_winner_stmt): only 'at "
-            "most one' is proved; covered by the `winner` monitor.  (3) 'a failed insertion does not consume its "
-            "arguments' (full_no_consume_stmt) is structural in the model (only the construction step consumes and it "
-            "follows a successful CAS) but not stated as a proved theorem; that the probe sequence covers every bucket is "
-            "proved under C18 (HSProofs.tri_surj).  Sequentially consistent interleavings only.  The SIMD group load is "
+            "most one' is proved; covered by the `winner` monitor.  (3) c03_full_fixed_fails_clean (failed insertion: argument not consumed, whole probe sequence full) is "
+            "proved; that the probe sequence covers every bucket (table completely full) is proved for the same formulas "
+            "under C18 (HSProofs.tri_surj), not re-proved here.  Sequentially consistent interleavings only.  The SIMD group load is "
             "a plain, possibly torn 16-byte load: the model takes it as one step; torn loads are covered only by the "
             "byte-monotonicity theorem (c03_bytes_monotone), every invariant of the proof being per byte position.  "
             "Release/acquire pairing is checked on the regenerated site tables, not executed.  No PCT schedules: the BUSY "
